@@ -2372,6 +2372,39 @@ def nested_loop_ok(ctx, fn, outer_src, body_pat, world, min_paths=4):
     return True, ''
 
 
+def flatten_for_each_ok(ctx, fn, outer_src, body_pat, world):
+    """`outer.iter_mut()/into_iter().flatten().for_each(|item| BODY(item, world))`: std's Flatten yields the items of
+    the inner collections in order, for_each calls the closure once per item - the nested walk in one expression."""
+    outs = ctx.run(fn)
+    if len(outs) != 1 or outs[0].kind != 'return':
+        return False, 'not a single path'
+    o = outs[0]
+    cs = [e for e in o.trace if e.callee != 'drop' and not re.search(r'core::fmt::', e.callee)]
+    it = [e for e in cs if re.search(r'::iter_mut$|as IntoIterator>::into_iter$', e.callee)]
+    fl = [e for e in cs if re.search(r' as Iterator>::flatten$', e.callee)]
+    fe = [e for e in cs if re.search(r'^<std::iter::Flatten<.*> as Iterator>::for_each::<', e.callee)]
+    dm = [e for e in cs if re.search(r' as Deref(Mut)?>::deref(_mut)?$', e.callee)]
+    if not (len(it) == 1 and len(fl) == 1 and len(fe) == 1 and len(cs) == 3 + len(dm)):
+        return False, str([e.callee[:50] for e in cs])
+    src = it[0].args[0]
+    for d in dm:
+        if d.result is not None and src.eq(d.result):
+            src = d.args[0]
+    if _flat(src) != outer_src or not fl[0].args[0].eq(it[0].result) or not fe[0].args[0].eq(fl[0].result):
+        return False, 'chain does not start at %s' % outer_src
+    clv = fe[0].argvals[1]
+    loc = clv.kind[len('closure@'):] if isinstance(clv, Agg) and clv.kind.startswith('closure@') else None
+    cl = [f for f in ctx.fns() if f.params and loc and loc in f.params[0][1] and '{closure#' in f.name]
+    if len(cl) != 1 or len(clv.fields) != 1 or not ctx.valid('closure captures the world', to_term(clv.fields[0]) == world):
+        return False, 'closure of for_each not found or captures something else than the world'
+    couts = ctx.run(cl[0])
+    if len(couts) != 1 or couts[0].kind != 'return':
+        return False, 'closure body is not a single path'
+    ccs = sig(couts[0])
+    ok = len(ccs) == 1 and re.search(body_pat, ccs[0].callee) and len(ccs[0].args) == 2 and term_contains(ccs[0].args[0], P(2)) and _flat(ccs[0].args[1]) == 'fld(deref(p1),0)'
+    return bool(ok), '' if ok else str([e.callee[:50] for e in ccs])
+
+
 def spec_stage_loops(ctx):
     """Stage::setup / dispose / execute_seq: every system of every group exactly once, in table order (C13, C04, C05)"""
     ST = r"^src/dispatch/stage.rs: impl Stage<'_>"
@@ -2379,7 +2412,12 @@ def spec_stage_loops(ctx):
     for nm, src, body, txt in (('setup', 'ref(fld(deref(p1),%d))' % i_g, r"RunNow<'_>>::setup$", 'sets up'),
                                ('dispose', 'fld(p1,%d)' % i_g, r"RunNow<'_>>::dispose$", 'disposes of'),
                                ('execute_seq', 'ref(fld(deref(p1),%d))' % i_g, r"RunNow<'_>>::run_now$", 'runs')):
-        ok, why = nested_loop_ok(ctx, ctx.one(ST, nm), src, body, P(2))
+        f = ctx.one(ST, nm)
+        ok, why = nested_loop_ok(ctx, f, src, body, P(2))
+        if not ok:
+            ok2, why2 = flatten_for_each_ok(ctx, f, src, body, P(2))      # the same walk spelt groups.iter_mut().flatten().for_each(|s| ..)
+            if ok2:
+                ok, why = True, ''
         ctx.ob('stage-' + nm, 'Stage::%s %s every system of every group exactly once, in group order then system order, on the world passed in; nothing else' % (nm, txt), ok, why)
 
 
